@@ -353,7 +353,7 @@ def one(ctx, rng, ninputs):
 
 def plan(tier, seed):
     quick = tier == "quick"
-    return {"nshards": 16, "params": {"soft_s": 300 if quick else 1200, "nprograms": 40 if quick else 450, "ninputs": 6 if quick else 12}, "hard_timeout_s": 700 if quick else 3400}
+    return {"nshards": 16, "params": {"soft_s": 600 if quick else 1800, "nprograms": 40 if quick else 450, "ninputs": 6 if quick else 12}, "hard_timeout_s": 1200 if quick else 4000}
 
 
 def shard(ctx):
